@@ -173,7 +173,16 @@ var frameRe = regexp.MustCompile(`github\.com/open2b/scriggo[^\s(]*\.([A-Za-z_(*
 
 // firstFrame returns the first scriggo function in a stack dump (the identity of a crash site).
 func firstFrame(st string) string {
-	for _, line := range strings.Split(st, "\n") {
+	lines := strings.Split(st, "\n")
+	// a panic recovered and raised again by a deferred function: the origin is below the LAST
+	// "panic(" frame of the dump
+	start := 0
+	for i, line := range lines {
+		if strings.HasPrefix(line, "panic(") {
+			start = i + 1
+		}
+	}
+	for _, line := range lines[start:] {
 		if strings.Contains(line, "github.com/open2b/scriggo") && !strings.Contains(line, "verifharness") && strings.Contains(line, "(") && !strings.HasPrefix(line, "\t") {
 			i := strings.LastIndex(line, "(")
 			f := line[:i]
